@@ -399,7 +399,14 @@ class Gen(object):
             return [self.con_pattern(ty, i, 0, [], False, wild=True) for i in range(len(decl.ctors))]
         return None
 
-    def gen_clauses(self, ty, d_pat=2, max_clauses=4):
+    def gen_clauses(self, ty, d_pat=None, max_clauses=None):
+        if d_pat is None:
+            d_pat = 3 if ty[0] == "Tuple" else 2
+        if max_clauses is None:
+            max_clauses = 6 if ty[0] == "Tuple" else 4
+        return self.gen_clauses0(ty, d_pat, max_clauses)
+
+    def gen_clauses0(self, ty, d_pat=2, max_clauses=4):
         """-> [([alts], binds)] exhaustive and non-redundant for type ty"""
         r = self.rng
         rows = []
@@ -743,6 +750,14 @@ class Gen(object):
         """an expression worth matching on: prefer visible variables of matchable types"""
         r = self.rng
         vs = [(n, t, h) for n, t, h in sc.visible() if self.matchable(t) and (want is None or want(t))]
+        mv = [(n, t) for n, t, _h in sc.visible() if self.matchable(t) and t != VOID]
+        if len(mv) >= 2 and r.chance(1, 4):
+            # several columns at once: `when (a, b, ..) is { .. }`
+            pick = r.shuffle(mv)[: r.range(2, min(3, len(mv)))]
+            t = TTuple(*[pt for _n, pt in pick])
+            if want is None or want(t):
+                self.feat("when:multi_column")
+                return G.TupleE([G.Var(n, pt) for n, pt in pick], t)
         if vs and r.chance(4, 5):
             # favour structured types
             st = [v for v in vs if v[1][0] in ("List", "Adt", "Tuple", "Pair")]
@@ -838,6 +853,9 @@ class Gen(object):
                         return body
                     return self.expr(ty, sc, d - 1)
         vty = self.gen_type(2, False) if r.chance(3, 4) else TFn([self.gen_type(1, False)], self.gen_type(1, False))
+        fn_rets = [f.ret for f in self.callable if f.ret[0] == "Fn" and not f.tparams]
+        if fn_rets and r.chance(1, 6):
+            vty = r.pick(fn_rets)
         rhs = self.expr(vty, sc, d - 1)
         name = self.var_name(sc)
         sc2 = sc.extend([(name, vty)])
@@ -1036,6 +1054,8 @@ class Gen(object):
         if form == 0:
             self.feat("chain:" + ("and" if conj else "or"))
             extra = [self.expr(BOOL, sc, max(d - 2, 0))] if r.chance(1, 3) else []
+            if conj and extra and extra[0].K == "Lit" and extra[0].val is False and not self.opts.get("include_known"):
+                extra = []  # FINDINGS.md F6
             return G.Chain("and" if conj else "or", [left, right] + extra, BOOL)
         self.feat("op:" + ("&&" if conj else "||"))
         return G.Bin("&&" if conj else "||", left, right, BOOL)
@@ -1368,6 +1388,11 @@ class Gen(object):
                 pool.append(TAdt(a.name, *[self.gen_type(1, True, fresh=True) for _ in a.tparams]))
         for _ in range(r.range(2, 4)):
             pool.append(self.gen_type(2, True, fresh=True))
+        focus = self.opts.get("focus")
+        if focus == "lists":
+            # nested list / tuple / option shapes: the pattern-match compilation of lists is where F2, F7, F9 live
+            extra = [TList(TList(INT)), TList(TTuple(INT, BOOL)), TList(TOption(INT)), TList(TList(BOOL)), TTuple(TList(INT), TList(INT)), TList(TPair(INT, INT)), TOption(TList(INT))]
+            pool = pool + r.shuffle(extra)[:4] * 2
         self.pool = pool
 
     def total_expr(self, ty, d):
@@ -1429,7 +1454,7 @@ class Gen(object):
         return 10 + self.size * 7 + self.rng.below(10 + self.size * 5)
 
     def body_depth(self):
-        return self.rng.range(3, 5)
+        return self.choose([(1, 2), (3, 3), (4, 4)])
 
     def gen_body(self, ty, sc):
         self.nodes_left = self.body_budget()
@@ -1462,6 +1487,7 @@ class Gen(object):
         self.fns.append(f)
         self.callable.append(f)
         self.strict_params[f.name] = [A.strict_occ(n, f.body) for n, _t in f.params]
+        A.set_strict_params(self.strict_params)
 
     # -- generic helper ---------------------------------------------------------
     def gen_generic_fn(self):
@@ -1722,6 +1748,7 @@ class Gen(object):
         r = self.rng
         self.gen_adts()
         A.set_adts(self.adt_tab)
+        A.set_strict_params(self.strict_params)
         self.build_pool()
         self.gen_consts()
         nf = max(1, self.size - 1 + r.below(self.size + 1))
